@@ -34,11 +34,11 @@ def arch_variants(tier, kind, n):
 
 
 def slow(kind, n, arch, p4, p5):
-    """jobs that do not finish within the quick budget (measured, 150-300 s timeouts): everything that walks a failure path carrying a status/NULL Ref through the
-    Message class, or that evaluates a restored filter on a Message that has fields.  They are attempted in the thorough tier only."""
-    if kind == 15: return p4 in (0, 4)
+    """jobs that do not finish within the quick budget (measured, 250 s timeouts): evaluating a RESTORED filter on a Message that has fields, restoring a combinator
+    (its children come back through the global factory), and the bad archive with an unrestorable child.  They are sampled in the thorough tier only.
+    (Failure paths that hand a status-carrying or NULL Ref on were in this list until Ref::SetStatusAux was modelled, models/message.def.)"""
+    if kind == 15: return p4 == 4
     if arch: return n > 0 or kind >= 7
-    if kind == 14: return p4 != 2 and not (p5 < n)
     return False
 
 
